@@ -82,13 +82,17 @@ def _c16_nontrivial(r):
 def _shrink_sim(op):
     head, _, script = op.partition(" daemon ")
     cmds = ("daemon " + script).split(" ; ")
+    # the first `run` fixes the start of the history's clock: API calls before it have no
+    # defined time (the two schedulers of `sim2` then disagree by construction)
+    first_run = next((k for k, c in enumerate(cmds) if c.startswith("run ")), -1)
     for k in range(len(cmds) - 1, 0, -1):
-        if cmds[k].startswith(("daemon", "link")):
+        if cmds[k].startswith(("daemon", "link")) or k == first_run:
             continue
         yield head + " " + " ; ".join(cmds[:k] + cmds[k + 1:])
 
 
 shrinkers["sim"] = _shrink_sim
+shrinkers["sim2"] = _shrink_sim
 
 
 def _sim_nontrivial(r):
@@ -614,13 +618,14 @@ CONFIG = {
     "C08": dict(
         modules=["Mdns.Props.C08"],
         model_files="Mdns/Model/Compare.lean, Mdns/Model/Names.lean",
-        nontrivial=_c08_nontrivial,
-        extra_evidence=_c08_extra,
+        nontrivial=lambda r: (_sim_nontrivial(r) if r["op"].startswith("sim") else _c08_nontrivial(r)),
+        extra_evidence=lambda recs: dict(_c08_extra([r for r in recs if not r["op"].startswith("sim")]),
+                                         duels=_sim_extra([r for r in recs if r["op"].startswith("sim")])),
         partial=[
-            "component level only: the comparison, the tiebreak decision, the renaming functions and the name checks",
-            "not yet covered (daemon level): detection of a conflicting response while probing and after announcing",
-            "not yet covered (daemon level): the renamed service is probed again, announced, reported as NameChange and answered under the new name only (names_consistent, conflict_contract)",
-            "not yet covered (daemon level): restart of probing one second after a lost tiebreak (timer), two_daemons_converge",
+            "theorems are about the component level: the comparison, the tiebreak decision, the renaming functions and the name checks",
+            "daemon level, one daemon against injected conflicts (rename, probing again, announcement, NameChange): inside the responder model, exact correspondence under C07 / C06",
+            "daemon level, two or three daemons (`sim C08` duels): no model - decided by the monitor Mdns/Driver/MonDuel.lean on real traces (exactly one holder, "
+            "everybody announced, no shared instance / host name, renames as the proved functions say, new names used afterwards); known findings D37-D39",
             "clause 'the new name is still encodable': full statement false of the code (D13, D15, D15b are known findings); proved: rename_keeps_name_encodable_partial",
         ],
         rule="exhaustive: rec-compare on all ordered pairs of a 46-record alphabet (every RDATA kind, neighbouring values, both "
@@ -663,11 +668,13 @@ CONFIG = {
     "C18": dict(
         modules=["Mdns.Props.C18"],
         model_files="Mdns/Model/Intf.lean",
-        nontrivial=_c18_nontrivial,
+        nontrivial=lambda r: (_sim_nontrivial(r) if r["op"].startswith("sim") else _c18_nontrivial(r)),
+        extra_evidence=lambda recs: _sim_extra([r for r in recs if r["op"].startswith("sim")]),
         partial=[
-            "component level only: IfKind::matches, the selection loop, resolve_addr_to_index, valid_ip_on_intf, get_addrs_on_my_intf_v4/v6",
-            "not yet covered (daemon level): every packet for a service leaves only on selected interfaces in a common subnet and carries only such addresses (send_only_on_link)",
-            "not yet covered (daemon level): addr_auto services follow address changes; records learned on a removed interface disappear (intf_removed_spec); family_disabled_spec",
+            "theorems are about the component level (IfKind::matches, the selection loop, resolve_addr_to_index, valid_ip_on_intf, get_addrs_on_my_intf_v4/v6); "
+            "the daemon level (what leaves on which interface, what is still reported after a disable / after an interface vanished) has no model: it is decided by "
+            "the monitor Mdns/Driver/MonLink.lean on `sim C18` histories, which computes the enabled addresses with the proved selection function",
+            "not covered: addr_auto services following address changes; 'instances that lost other records are resolved again with what is left'; IpAdd / IpDel events",
         ],
         rule="exhaustive: every IfKind of a 19-kind alphabet against 11 interfaces (v4/v6, loopback, index none/0, shared names); every "
              "enable/disable sequence of length <= 3 over 6 kinds and of length 4 over 4 kinds on topologies of 1-3 interfaces; every "
@@ -676,7 +683,11 @@ CONFIG = {
              "selection sequences (length <= 6) on random tables (<= 4 entries, duplicates, empty), Addr selections resolved against "
              "the table of their call and applied to a later table, service address sets against interface address sets. "
              "Non-trivial = at least one selection and one interface / same-family subnet test / non-empty address sets. "
-             "Distinct = distinct op lines.",
+             "Distinct = distinct op lines. PLUS daemon level (`sim C18`, harness/src/c18.rs gen_links): one daemon on 1-3 simulated interfaces "
+             "(IPv4 only, IPv6 only, dual stack, three subnets), a browse and sometimes a hostname search, announcements of a dual-stack "
+             "responder delivered on chosen links (an IPv4-only interface learns AAAA records too), an own registration with addresses "
+             "on several subnets, 1-3 enable / disable selections of every kind and changes of the interface table (interface or one "
+             "address removed, interface added, table restored), then the interface check and a fresh browse / search reporting from the cache.",
         level_text="Component-level part of C18. Lean theorems: an interface is selected iff the last matching selection (in call order) "
                    "enables it, enabled by default, independently of the other interfaces present, hence also for interfaces that appear "
                    "later (selected_iff, selected_later_interface, last_match_wins); an Addr selection is stored as index + family when the "
@@ -686,7 +697,11 @@ CONFIG = {
                    "family lying in the subnet of one of the interface's addresses (addrsOnIntf_iff, addrsOnIntf_sublist). The model is compared "
                    "with Zeroconf::selected_intfs (called on a real Zeroconf value), IfKind::matches, resolve_addr_to_index, valid_ip_on_intf "
                    "and get_addrs_on_my_intf_v4/v6 of the working tree on every run and the theorems' conclusions are evaluated on the real "
-                   "outputs. The daemon-level clauses (see coverage.partial) are not covered yet.",
+                   "outputs. Daemon level: the monitor (MonLink.lean) computes, with that proved selection function, the enabled addresses at "
+                   "every point of a real history and checks that no datagram leaves on an interface / family without one, that own addresses "
+                   "are sent only inside the subnet of the interface, that addresses learned on an interface (family) that a disable call "
+                   "emptied are no longer reported, and that after an interface vanished and the interface check ran nothing learned only "
+                   "there is reported.",
         level_note="Trusted: Lean kernel; axioms propext, Classical.choice, Quot.sound only; hand-written model tied to the code by differential "
                    "testing of this run's inputs; IfKind::Predicate is exercised with two named predicate families shared by harness and model.",
         assumptions=[
@@ -746,8 +761,9 @@ CONFIG = {
     "C10": dict(
         modules=["Mdns.Props.C10"],
         model_files="Mdns/Model/Record.lean, Mdns/Model/Cache.lean",
-        nontrivial=_c10_nontrivial,
-        extra_evidence=_c10_extra,
+        nontrivial=lambda r: (_sim_nontrivial(r) if r["op"].startswith("sim") else _c10_nontrivial(r)),
+        extra_evidence=lambda recs: dict(_c10_extra([r for r in recs if not r["op"].startswith("sim")]),
+                                         daemon_level=_sim_extra([r for r in recs if r["op"].startswith("sim")])),
         rule="ops generated from VERIF_SEED by vharness (c11.rs): `suppress mine other` for every kind of record with the "
              "responder's TTL in {120, 4500, 0, 1, 2, 3, 7, 255, 121, 4501, 60, 10, u32::MAX-1, u32::MAX} and the listed TTL in "
              "{0, 1, h-1, h, h+1, full-1, full, full+1, u32::MAX} (h = half), the other record identical / with the cache-flush "
@@ -756,21 +772,27 @@ CONFIG = {
              "`cache-seq`: caches of shared and unique PTR/SRV/TXT/A/AAAA records asked for known answers at ages 0, 1 ms, "
              "1 s +-1 ms, half-life -1/0/+1 ms, +1 s, expiry, with update_ttl applied to every listed copy as send_query_vec does. "
              "Non-trivial = suppress with equal RDATA (TTL, class, bit or owner decide) / a decodable query / a `known` "
-             "command that lists at least one answer. Distinct = distinct op lines.",
+             "command that lists at least one answer. Distinct = distinct op lines. PLUS daemon level (`sim C10`, c07.rs generate_c10): "
+             "a responder with announced services on 1-3 interfaces and 4-10 injected queries of every kind that list its records as "
+             "known answers with TTLs 59/60/61 of 120 and 2249/2250/2251 of 4500, with and without the cache-flush bit, in the owner's "
+             "spelling or another letter case; inside the responder model (exact correspondence) and judged by "
+             "MonResponder.monitorKnownAnswers (a record listed with more than half its TTL is not sent).",
         level_text="Component level. suppress_iff (with the exact meaning of `matches` and of the integer half), its soundness for all "
                    "records, the querier's known_iff and the written-TTL bounds (no underflow under the half-life guard) are Lean "
                    "theorems for all records and caches; the model is compared with suppressed_by_answer / suppressed_by / "
                    "get_known_answers / update_ttl of the working tree on every run and the property's clauses are evaluated on "
                    "the real answers. The full responder statement is false of the code (witness theorem D18_witness) and is kept "
-                   "as C10_responder_full with suppress_partial proved; the daemon-level clauses (other matching records still "
-                   "answered, query sent on every interface) are not covered at this level.",
+                   "as C10_responder_full with suppress_partial proved. Daemon level (responder side): `sim C10` histories are inside the "
+                   "responder model (handle_query with its fold over the known answers: exact correspondence) and the suppression "
+                   "clause is evaluated on the real packets; the querier side (known answers listed in queries, per interface) is "
+                   "covered by the client model's correspondence under C03-C05.",
         level_note="Trusted: Lean kernel; axioms propext, Classical.choice, Quot.sound only; hand-written model tied to the code by "
                    "differential testing of this run's inputs. Partial: suppress_partial needs equal cache-flush bits and "
                    "(addresses) equal interface - defect D18; handle_query / send_query_vec are not modelled here.",
         partial=["suppress_partial: hypothesis mine.flush = other.flush and same interface for addresses (defect D18: "
                  "suppressed_by_answer uses `matches`, which compares the cache-flush bit and the interface)"],
         assumptions=[
-            "component level: the fold over the answers in handle_query and the per-interface sending of send_query_vec are not part of this check",
+            "daemon level judged only in iterations that read exactly one datagram and made no API call",
             "times below 2^62 ms (no u64 wrap); TTLs are u32",
             "lower-casing of host names is modelled on ASCII only; generated names are ASCII",
             "the exact half-life millisecond (now = created + 500*ttl) and a listed TTL of exactly half are not pinned by the statement (masked in the monitor)",
